@@ -10,4 +10,4 @@ Extraction "model_doc.ml"
   XmlDoc.std_xml_content XmlDoc.to_generic
   XmlDoc.tabs_okb XmlDoc.docb XmlDoc.lexableb XmlDoc.std_valb
   JsonDoc.json_print JsonDoc.json_parse JsonDoc.json_tree JsonDoc.json_doc JsonDoc.std_json_value
-  JsonDoc.jdocb JsonDoc.jlexb JsonDoc.nonulb.
+  JsonDoc.jdocb JsonDoc.jlexb JsonDoc.nonulb JsonDoc.parents_ltb.
